@@ -119,6 +119,17 @@ def sql_rules(ctx, crate, self_ty, clock, tag, rule='C13.R1'):
             ops = deadline_predicates(q, clock)
             ok = has_id_filter(q) and len(ops) == 1 and ops[0] in ('>', '>=') and ' OR ' not in q.upper()
             live_ops |= set(ops)
+            # zero rows affected must MEAN "absent or expired": the row is selected by its id and its liveness and by nothing else
+            wtxt = re.split(r'\bWHERE\b', q, flags=re.I)[-1] if re.search(r'\bWHERE\b', q, re.I) else ''
+            wtxt = re.split(r'\b(RETURNING|LIMIT|ORDER BY)\b', wtxt, flags=re.I)[0]
+            conj = [c_.strip() for c_ in re.split(r'\bAND\b', wtxt, flags=re.I) if c_.strip()]
+            flat = lambda x: re.sub(r'[()\s]', '', x)
+            extra = [c_ for c_ in conj if not re.match(r'^(\w+\.)?id=(\?\d*|\$\d+|:\w+)$', flat(c_), re.I)
+                     and not re.match(r'^(\w+\.)?deadline(>|>=)' + re.escape(flat(clock)) + r'$', flat(c_), re.I)]
+            if re.match(r'^\s*(UPDATE|DELETE)\b', q, re.I):
+                ctx.ob(rule, '%s|%s|selected-by-id-and-liveness-only' % (tag, m), not extra, b.loc(bb, t),
+                       'WHERE conjuncts besides `id = ?` and the liveness predicate: %s (with another condition a live record can match no row, and '
+                       '"no row" is reported as an unknown id)' % (extra or 'none'))
             ctx.ob(rule, '%s|%s|liveness-filter' % (tag, m), ok, b.loc(bb, t),
                    '`%s`: WHERE filters on id: %s; deadline-vs-clock comparison(s): %s (need exactly one, `deadline > clock`, no OR)'
                    % (q[:90], has_id_filter(q), ops))
